@@ -167,12 +167,13 @@ static void DecodeLXY(Word Code) {
         Boolean OK;
         Word    AdrWord;
 
+        /* x and y are RAM addresses: a negative value would borrow from the opcode bits */
         if (ArgCnt == 1) {
-            AdrWord = EvalStrIntExpression(&ArgStr[1], Int8, &OK);
+            AdrWord = EvalStrIntExpression(&ArgStr[1], UInt8, &OK);
         } else {
-            AdrWord = EvalStrIntExpression(&ArgStr[1], Int4, &OK) << 4;
+            AdrWord = EvalStrIntExpression(&ArgStr[1], UInt4, &OK) << 4;
             if (OK) {
-                AdrWord += EvalStrIntExpression(&ArgStr[2], Int4, &OK);
+                AdrWord += EvalStrIntExpression(&ArgStr[2], UInt4, &OK);
             }
         }
         if (OK) {
